@@ -514,6 +514,7 @@ func (c13) Run(t *testing.T, tape *core.Tape, rcx *RunCtx) *core.Result {
 	res.Nontrivial = sim.Multi > 0 || (rd != nil && rd.ShortReads+rd.ZeroReads+rd.EOFWithData > 0)
 	res.ShapeKey = fmt.Sprintf("%s|%s|n%d|cap%d|gz%v|%s|%s|%s|b%d", sc.Entry, sc.Writer, nrec, sc.Cap, sc.Gzip, sc.Wrap, sc.LineEnd, sc.Reader, len(payload))
 	res.Count("decisions_with_choice", int64(sim.Multi))
+	res.Count("yields_passed_by_a_lone_runnable_task", int64(sim.Skipped))
 	res.Count("fault_timer_wins_race_time_passes_while_runnable", int64(sim.Jitters))
 	res.Count("fault_consumer_stall_in_simulated_time", int64(stallCount))
 	res.SimTimeNs = int64(sim.SimTime)
